@@ -491,6 +491,25 @@ def _alarm(signum, frame):
     raise WallClock()
 
 
+# small standard-library submodules that nothing else imports: generated programs import them with
+# `from pkg import sub as alias`; they are removed from sys.modules before every run so that a
+# lowering that forgets to import the submodule is visible on every run, not only the first
+PURGE_MODULES = ("wsgiref.headers", "wsgiref.util", "wsgiref", "email.errors", "html.entities", "xml.dom.domreg")
+
+
+def purge_modules():
+    for m in PURGE_MODULES:
+        sys.modules.pop(m, None)
+    for pkg, sub in (("wsgiref", "headers"), ("wsgiref", "util"), ("email", "errors"), ("html", "entities"),
+                     ("xml.dom", "domreg")):
+        mod = sys.modules.get(pkg)
+        if mod is not None and hasattr(mod, sub):
+            try:
+                delattr(mod, sub)
+            except AttributeError:
+                pass
+
+
 def run_code(text, mode, kit=None, wall=20, extra_ns=None, want_globals=True,
              filename="<prog>"):
     """Execute `text` (mode 'exec' for a source script, 'eval' for a converted expression)
@@ -499,6 +518,7 @@ def run_code(text, mode, kit=None, wall=20, extra_ns=None, want_globals=True,
     """
     if kit is None:
         kit = Kit()
+    purge_modules()
     ns = kit.namespace()
     if extra_ns:
         ns.update(extra_ns)
